@@ -117,10 +117,11 @@ pub fn run(ctx: &mut Ctx) -> bool {
             blackbox::run_c08_swarm(ctx);
         }
         "C16" => {
-            ctx.rule = "Cases are UCI sessions: 0-25 well-formed commands of earlier traffic (positions with move lists and repetition cycles, go with slices <= 30 ms, ucinewgame, setoption incl. the logging option, isready, ignorable lines; in a third of the cases also the probe's own position line followed by a go), then the probe `position X` + `go` (zero allowance) + `position X` + `go` (40-120 ms) sent twice. Oracle (differential): the zero-allowance bestmove equals that of a fresh process given only the probe; the timed runs' sequences of (depth, nodes, score, first pv move) agree with the fresh process and with each other on their common prefix. A second family plays the normal flow of a game: the engine searches P with a real slice, the game continues with its move and the reply it expected (second pv move), and `position P moves b r` + go must be answered like a fresh engine. In a third of the sessions the probe follows the earlier traffic without a quiescing pause. A difference must reproduce in one (two) further complete attempts. Non-trivial = earlier traffic containing a go and either a long move list or the probe's own position line, or a continuation round; distinct by session.".into();
+            ctx.rule = "Cases are UCI sessions: 0-25 well-formed commands of earlier traffic (positions with move lists and repetition cycles, go with slices <= 30 ms, ucinewgame, setoption incl. the logging option, isready, ignorable lines; in a third of the cases also the probe's own position line followed by a go), then the probe `position X` + `go` (zero allowance) + `position X` + `go` (40-120 ms) sent twice. Oracle (differential): the zero-allowance bestmove equals that of a fresh process given only the probe; the timed runs' sequences of (depth, nodes, score, first pv move) agree with the fresh process and with each other on their common prefix. A second family plays the normal flow of a game: the engine searches P with a real slice, the game continues with its move and the reply it expected (second pv move), and `position P moves b r` + go must be answered like a fresh engine. A third family puts MANY searches between two probes of the same position: probe, then 126-130 / 253-259 / 509-515 searches of other positions (zero allowance, fenced every 64), then the probe again, both compared with a fresh process - the counts straddle the 7-, 8- and 9-bit limits of anything the session might count or age. In a third of the sessions the probe follows the earlier traffic without a quiescing pause. A difference must reproduce in one (two) further complete attempts. Non-trivial = earlier traffic containing a go and either a long move list or the probe's own position line, or a continuation round; distinct by session.".into();
             ctx.assumptions = vec!["the timed bestmove itself is not compared (it legitimately depends on where the clock cuts)".into()];
             blackbox::run_c16(ctx);
             blackbox::run_c16_continuation(ctx);
+            blackbox::run_c16_many(ctx);
         }
         "C17" => {
             ctx.rule = "Cases are UCI sessions: after the handshake, a position, then 0-10 lines the engine does not understand (empty, blanks / tabs / unicode spaces, random words, `uci` again, `stop`, `ponderhit`, `debug on`, wrong-case commands, 200-600 character lines, single words of 1-64 KiB whose tail at a power-of-two byte offset spells a command, lines of up to 30000 multi-byte characters, unicode), real commands written with surplus whitespace, `isready` in between (must always give `readyok`), the zero-allowance answer re-asked mid-way and after the last ignorable line (must be unchanged), a `go` with unknown tokens at key boundaries and a real 30-90 ms slice (must take the planned time and answer legally), then, in two thirds of the sessions, a timed go followed AT ONCE by `position <another position>`, an ignorable line and (a quarter of those) `stop` - lines that arrive while the engine is thinking: exactly one legal bestmove for the go, and afterwards the zero-allowance answer is the one of the other position; then one of eight endings: quit when idle, quit right after go, stdin closed when idle / right after go (pending bestmove must still be printed) / before `uci` / after a blank line / after an unterminated whitespace fragment / after an `isready` without line terminator (must still be answered); ignorable lines include words that merely start with a command name (`gobble`, `positional`, `quitting`); the process must end within slice + 1 s (+1.5 s grace), observed, not killed. Non-trivial = >= 3 ignorable lines or an end-of-input ending; distinct by session.".into();
